@@ -129,9 +129,9 @@ class FullDecider(MaxDepthDecider):
                 for x in alternatives
                 if (
                     x in self.grammar.recursive_prods
-                    and self.grammar.get_distance_to_terminal(x) < (self.max_depth - ctx.depth)
+                    and self.grammar.get_distance_to_terminal(x) <= (self.max_depth - ctx.depth)
                 )
-                or self.grammar.get_distance_to_terminal(x) == (self.max_depth - ctx.depth - 1)
+                or self.grammar.get_distance_to_terminal(x) == (self.max_depth - ctx.depth)
             ]
         else:
             c_alternatives = []
